@@ -1,8 +1,8 @@
 SPECIFICATION Spec
 CONSTANTS
   Versions = {3, 4}
-  StreamSets <- SS_perm
-  NSect = 6
+  StreamSets <- SS_thor
+  NSect = 8
   Geo <- G4
   HD = 2
   XFat = {0}
